@@ -15,7 +15,7 @@ RULE = ("(a) exhaustive: every flow grid of shape 1x1,1x2,2x1,1x3,3x1,2x2 "
         "codes, invalid code 3} x every outlet x inlet sets {none, each other "
         "single cell} x every river start; (b) Hypothesis: grids up to 12x12 "
         "(thorough 40x40) of three kinds (uniform codes with cycles, random "
-        "acyclic forests, majority-direction), random outlet, 0..3 inlets "
+        "acyclic forests, majority-direction, convergent on a pit), random outlet, 0..3 inlets "
         "(some on the outlet's chain), random river start and nval. Oracle: "
         "independent Python graph model built from the literal ESRI code "
         "table: downstream/upstream relations, area = outlet + cells whose "
@@ -226,15 +226,83 @@ def enum_3x3(tier):
     return G.enum_grids([(3, 3)], alphabet=[1, 4, 16, 64, 2])
 
 
+def enum_star(tier):
+    """3x3 grids whose ring cells either point to the centre, are sinks, or
+    point to the next ring cell clockwise; the centre holds any code of the
+    alphabet (pits with up to 8 inflowing neighbours, convergent and
+    rotating patterns): 3^8 * 10 = 65 610 grids."""
+    ring = [(0, 0), (0, 1), (0, 2), (1, 2), (2, 2), (2, 1), (2, 0), (1, 0)]
+    inv = {v: k for k, v in G.OFFSETS.items()}
+    opts = []
+    for i, (r, k) in enumerate(ring):
+        to_centre = inv[(1 - r, 1 - k)]
+        r2, k2 = ring[(i + 1) % 8]
+        clockwise = inv[(r2 - r, k2 - k)]
+        opts.append([to_centre, 0, clockwise])
+    import itertools
+    centres = G.ALPHABET if tier == "thorough" else [0, 3, 1, 32]
+    for c in centres:
+        for combo in itertools.product(*opts):
+            fd = [0] * 9
+            for (r, k), v in zip(ring, combo):
+                fd[r * 3 + k] = v
+            fd[4] = c
+            yield {"shape": [3, 3], "fd": fd, "star": True}
+
+
+def star_oracle(case):
+    """Outlets: the centre and one corner; inlets: none / one ring cell."""
+    quiet()
+    fd = G.fd_array(case)
+    g, ca = make_catchment(fd)
+    down = G.down_model(fd)
+    labels = set()
+    check_relations(ca, fd, down)
+    nt = False
+    for outlet, inl in ((4, []), (4, [0]), (4, [8]), (8, []), (2, [4])):
+        nt = check_area(ca, fd, down, outlet, inl, labels) or nt
+    nup = sum(1 for c in range(9) if down[c] == 4)
+    labels.add(f"centre-inflows:{nup}")
+    return {"nt": nt or nup >= 7, "labels": sorted(labels)}
+
+
+@st.composite
+def convergent_grid(draw):
+    """Every cell points towards a chosen pit (Chebyshev-nearest step), the
+    pit holds a sink / invalid / outflowing code; a few cells are then
+    perturbed."""
+    nr, nc = draw(st.integers(3, 9)), draw(st.integers(3, 9))
+    pr, pk = draw(st.integers(0, nr - 1)), draw(st.integers(0, nc - 1))
+    inv = {v: k for k, v in G.OFFSETS.items()}
+    fd = []
+    for r in range(nr):
+        for k in range(nc):
+            if (r, k) == (pr, pk):
+                fd.append(draw(st.sampled_from([0, 0, 3, 1, 64])))
+            else:
+                sgn = lambda v: (v > 0) - (v < 0)
+                fd.append(inv[(sgn(pr - r), sgn(pk - k))])
+    for _ in range(draw(st.integers(0, 3))):
+        fd[draw(st.integers(0, nr * nc - 1))] = draw(
+            st.sampled_from(G.ALPHABET))
+    return {"shape": [nr, nc], "fd": fd, "kind": "convergent",
+            "pit": pr * nc + pk}
+
+
 # -------------------------------------------------------------------- random
 @st.composite
 def random_case(draw, tier):
     maxdim = 12
     if tier == "thorough" and draw(st.integers(0, 9)) == 0:
         maxdim = 40
-    c = draw(G.random_grid(maxdim))
+    if draw(st.integers(0, 5)) == 0:
+        c = draw(convergent_grid())
+    else:
+        c = draw(G.random_grid(maxdim))
     n = c["shape"][0] * c["shape"][1]
     c["outlet"] = draw(st.integers(0, n - 1))
+    if "pit" in c and draw(st.integers(0, 3)) > 0:
+        c["outlet"] = c["pit"]
     c["inlets"] = draw(st.lists(st.integers(0, n - 1), max_size=3,
                                 unique=True))
     c["inlet_on_chain"] = draw(st.integers(0, 3))
@@ -296,6 +364,8 @@ SUBS = [
         shards=(16, 16)),
     Sub("C06.exhaustive-3x3-ingrid", exhaustive_oracle, enumerate=enum_3x3,
         shards=(1, 16)),
+    Sub("C06.exhaustive-3x3-stars", star_oracle, enumerate=enum_star,
+        shards=(16, 16)),
     Sub("C06.random-grids", random_oracle, strategy=random_case,
         n=(400, 12000), shards=(8, 16)),
 ]
